@@ -44,7 +44,8 @@ for sid in ids:
             res.append(f"{fn}:DID-NOT-RUN")
             continue
         st = mm.group(1)
-        bad = ('assert-failed' in st) or ("'panic'" in st)
+        nv = re.search(r"violations=(\d+)", txt)
+        bad = ('assert-failed' in st) or ("'panic'" in st) or (nv is not None and int(nv.group(1)) > 0)
         res.append(f"{fn}:{'VIOLATION' if bad else 'clean'}({time.time()-t0:.0f}s)")
         if bad:
             caught = True
